@@ -10,10 +10,11 @@
               stmt := 1 id | 2 id | 3 var val | 4 | 5 | 6 k | 7 k var
                     | 8 id list list | 9 var N vals.. list list | 10 k list
    answer: [decoded; same tree (or same kind of error); statements once each;
-            control-variable assignments once each; tests once each as if-conditions] *)
+            control-variable assignments once each; tests once each as if-conditions;
+            the tree, laid out as a graph, follows the input graph under every decision list] *)
 From Coq Require Import List ZArith Bool.
 Import ListNotations.
-From V Require Import Valid.Hier Valid.FlatRegion Model.Graph Model.IterHier Model.Prune Model.Back.
+From V Require Import Valid.Hier Valid.FlatRegion Model.Graph Model.IterHier Model.Prune Model.Back Model.BackSem.
 Local Open Scope Z_scope.
 
 Fixpoint parse_ast (fuel : nat) (l : list Z) : option (ast * list Z) :=
@@ -144,14 +145,14 @@ Definition want_assigns (h : hier) : list Z :=
 Definition run_back (rows : list (list Z)) : list Z :=
   let '(hr, br) := split_back rows in
   match decode hr with
-  | None => [0; 0; 0; 0; 0]
-  | Some (_, h) =>
+  | None => [0; 0; 0; 0; 0; 0]
+  | Some (g, h) =>
     match top_region h, rows_tagged br 152 with
     | Some top, [st] :: _ =>
       let info := decode_info br in
       let got := transform h info (n_name top) in
       match got with
-      | CErr e => [1; b2z (Z.eqb st (cerr_code e)); 1; 1; 1]
+      | CErr e => [1; b2z (Z.eqb st (cerr_code e)); 1; 1; 1; 1]
       | COk tree =>
         let fuel := S (S (length h + length (concat br))) in
         let same := match rows_tagged br 153 with
@@ -162,8 +163,9 @@ Definition run_back (rows : list (list Z)) : list Z :=
         [1; b2z same;
          b2z (census_check (want_stmts h info) (census_stmts fuel tree));
          b2z (census_check (want_assigns h) (map pair_code (census_assigns fuel tree)));
-         b2z (census_check (want_tests h info) (census_tests fuel tree))]
+         b2z (census_check (want_tests h info) (census_tests fuel tree));
+         b2z (back_check g info tree)]
       end
-    | _, _ => [0; 0; 0; 0; 0]
+    | _, _ => [0; 0; 0; 0; 0; 0]
     end
   end.
